@@ -348,6 +348,19 @@ pub fn depth_differential(c: &DepthCase) -> PResult {
 
 /// Very deep chains (far beyond any limit) must be refused, not overflow the stack. Runs in a
 /// child process on a 2 MiB thread so that a stack overflow is observable as the child's death.
+/// Containers with more elements than a 16-bit counter holds (and around that border).
+fn big_cases() -> Vec<(String, TVal)> {
+    let mut bigs: Vec<(String, TVal)> = vec![];
+    for n in [65_535usize, 65_536, 65_537, 70_001] {
+        bigs.push((format!("list<binary> x {}", n), TVal::List(TT::Binary, (0..n).map(|i| TVal::Binary(if i % 1000 == 0 { b"x".to_vec() } else { vec![] })).collect())));
+        bigs.push((format!("set<struct> x {}", n), TVal::Set(TT::Struct, (0..n).map(|i| TVal::Struct(if i % 4096 == 0 { vec![(1, TVal::I8(1))] } else { vec![] })).collect())));
+    }
+    for n in [32_767usize, 32_768, 32_769, 40_001] {
+        bigs.push((format!("map<binary,i8> x {}", n), TVal::Map(TT::Binary, TT::I8, (0..n).map(|i| (TVal::Binary(vec![(i % 251) as u8]), TVal::I8(1))).collect())));
+    }
+    bigs
+}
+
 pub fn deep_probe_child() -> i32 {
     let h = std::thread::Builder::new()
         .stack_size(2 << 20)
@@ -493,6 +506,25 @@ pub fn run(ctx: &Ctx) -> i32 {
     }
     if let Some(rp) = &ctx.replay {
         let sub = rp["case"]["sub"].as_str().unwrap_or("");
+        if sub == "skip-big" {
+            let name = rp["case"]["case"]["big"].as_str().unwrap_or("").to_string();
+            let Some((_, v)) = big_cases().into_iter().find(|(n, _)| *n == name) else {
+                eprintln!("replay: unknown big container {}", name);
+                return 2;
+            };
+            let c = Case { skipped: v, next: TVal::Binary(b"tail".to_vec()), id1: 1, id2: 2, sentinel: vec![0xEE; 3] };
+            return match check_case(&c) {
+                Ok(()) => {
+                    println!("replay: property holds on this case");
+                    0
+                }
+                Err(f) => {
+                    println!("VIOLATION property=C07 replay={}", ctx.replay_path.clone().unwrap_or_default());
+                    println!("  key={} {} [{}]", f.key, vcore::evidence::truncate(&f.msg, 400), name);
+                    1
+                }
+            };
+        }
         let res = if sub == "depth" {
             check_depth(&serde_json::from_value(rp["case"]["case"].clone()).expect("replay case"))
         } else {
@@ -536,6 +568,25 @@ pub fn run(ctx: &Ctx) -> i32 {
     });
     if let Some((case, f)) = res {
         report(ctx, &rec, "skip", &case, &f);
+    }
+    // containers with more elements than fit a 16-bit counter (and around that border), of
+    // variable-width elements so that no fixed-size fast path applies
+    {
+        let bigs = big_cases();
+        for (what, v) in bigs {
+            let c = Case { skipped: v, next: TVal::Binary(b"tail".to_vec()), id1: 1, id2: 2, sentinel: vec![0xEE; 3] };
+            {
+                let mut r = rec.borrow_mut();
+                r.case(fp(&what), true, || json!({"skipped": what, "next": "bin\"tail\""}));
+                r.class("container beyond 16-bit element counts");
+            }
+            if let Err(f) = check_case(&c) {
+                // the replay carries the description, not a quarter of a megabyte of elements
+                let f = Fail::new(&f.key, format!("{} [{}]", vcore::evidence::truncate(&f.msg, 400), what));
+                report(ctx, &rec, "skip-big", &json!({"big": what}), &f);
+                break;
+            }
+        }
     }
     // depth limit: every depth 1..=80, several hop patterns
     let mut depth_cases = vec![];
